@@ -89,11 +89,11 @@ RECURSIVE JoinLines(_, _)
 JoinLines(ls, i) == IF i > Len(ls) THEN <<>>
                     ELSE LineTextOf(ls[i]) \o (IF i < Len(ls) THEN <<NL>> ELSE <<>>) \o JoinLines(ls, i + 1)
 
-Doc == JoinLines(lines, 1)
+GenDoc == JoinLines(lines, 1)
 Shape == [i \in 1..Len(lines) |-> <<lines[i].k, lines[i].ind>> \o lines[i].kind]
 
 Complete == stack = <<>> /\ lines # <<>> /\ nel >= 1
 
-EmitAll == Complete => /\ Emit("", Doc)
-                       /\ Emit("", Doc \o <<NL>>)
+EmitAll == Complete => /\ Emit("", GenDoc)
+                       /\ Emit("", GenDoc \o <<NL>>)
 =============================================================================
